@@ -12,7 +12,7 @@ import (
 )
 
 func init() {
-	register(&Rule{ID: "PV-BOUNDS", Floor: 4,
+	register(&Rule{ID: "PV-BOUNDS", Floor: 3,
 		Doc: "for every slice / index expression of the server package whose bound or index derives from an integer parsed from the request (strconv.Atoi/ParseInt/ParseUint; directly, through ± constants, through φ, or through len of a slice cut with such a bound), difference-bound facts implied by the dominating branch conditions (and, per φ operand, by the conditions on its incoming edge) prove 0 ≤ low ≤ high ≤ len / 0 ≤ i < len; constant φ operands are out of scope; an obligation that cannot be proven is reported",
 		Run: runBounds})
 }
